@@ -36,7 +36,7 @@ ASSUMPTIONS = ["CancelledError is never injected",
                "after an abort the event's effect is legitimately lost, so later steps are "
                "checked for legality and responsiveness, not against the fault-free twin"]
 
-TOTAL = {"quick": 128, "thorough": 6000}
+TOTAL = {"quick": 96, "thorough": 6000}
 NEV = {"quick": 8, "thorough": 12}
 LIBERR = xs.XStateMachineError
 
@@ -100,6 +100,8 @@ def safe_positions(plan):
         for i, a in enumerate(L):
             if isinstance(a, str):
                 safe[a] = all(isinstance(x, str) for x in L[i + 1:])
+            elif isinstance(a, dict) and a.get("$") == "logcb":
+                safe["cb.log:" + a.get("tag", "")] = all(isinstance(x, str) for x in L[i + 1:])
             elif isinstance(a, dict) and "$" in a:
                 for b in a.get("branches", []):
                     walk_list(b.get("actions", []))
@@ -360,7 +362,12 @@ def enum_case(res: Result, spec, idx):
             else:
                 res.count("positions.action.skipped-unsafe")
         for kind, n in counts.items():
-            if kind != "action":
+            if kind.startswith("cb."):
+                if safe.get(kind, False):
+                    positions += [(kind, k) for k in range(n)]
+                else:
+                    res.count("positions.callback.skipped-unsafe", n)
+            elif kind != "action":
                 positions += [(kind, k) for k in range(n)]
         cap_n = 60 if spec["tier"] == "quick" else 400
         if len(positions) > cap_n:
@@ -376,7 +383,9 @@ def enum_case(res: Result, spec, idx):
             faulty, fx = run_once(engine, case, events, gtables, F, tgt)
             kind = tgt[0][0].split(".")[0] if len(tgt) == 1 else "pair"
             res.evaluations += 1
-            res.count("faults." + tgt[0][0].replace("hook.", "hook:") if len(tgt) == 1 else "faults.pair")
+            res.count("faults." + tgt[0][0].replace("hook.", "hook:").split(":fx")[0].split(":")[0 if tgt[0][0].startswith("cb.") else slice(None)] if False else (
+                "faults.pair" if len(tgt) > 1 else "faults." + (
+                    "cb.log" if tgt[0][0].startswith("cb.log") else tgt[0][0].replace("hook.", "hook:"))))
             res.hashes.add(h([idx, engine, tgt]))
             if not fx["fired"]:
                 res.count("faults.position-not-reached-again")
@@ -415,12 +424,12 @@ def enum_case(res: Result, spec, idx):
                 if d is not None:
                     res.violation("C07:builtin-callback-fault-changed-%s/%s" % (FIELD.get(d[0], d[0]), engine),
                                   "an exception in a %s callback changed the %s at step %d" % (
-                                      tgt[0][0], FIELD.get(d[0], d[0]), d[1]), wit, case={"idx": idx})
+                                      tgt[0][0].split(":")[0], FIELD.get(d[0], d[0]), d[1]), wit, case={"idx": idx})
                     continue
                 if len(fx["aerr"]) != 1:
                     res.violation("C07:on_action_error-not-notified-for-builtin-callback/%s" % engine,
                                   "on_action_error ran %d times for a failing %s callback" % (
-                                      len(fx["aerr"]), tgt[0][0]), wit, case={"idx": idx})
+                                      len(fx["aerr"]), tgt[0][0].split(":")[0]), wit, case={"idx": idx})
             else:
                 d = first_diff(base, faulty)
                 if d is not None:
